@@ -78,6 +78,7 @@ def thorough_configs():
       "t2_aux_2op": cfg(2, ["TCONV", "BMM", "EMB", "EW1A", "SAMEIN1", "SAMEIN3", "SPLIT", "FIXSL", "EW2"],
                         [NOQ, M("SRQ", "a8a", "w8c"), M("DRQ", "-", "w8c"), M("WO", "-", "w8c"), M("F16")], MODES_A_3, IO_2),
       "t3_act_3op": cfg(3, ["EW1", "EW2", "FIXT", "UNSUP"], [NOQ], MODES_A_3, IO_2, share="none"),
+      "t5_fc_3op": cfg(3, ["FC", "EW1"], [NOQ, M("SRQ", "a8a", "w8c"), M("WO", "-", "w8c")], [NOQ, M("SRQ", "a8a", "w8c")], [NOQ], share="none"),
       "t4_2in_2op": cfg(2, ["EW2", "CONCAT", "FC", "SPLIT"], [NOQ, M("SRQ", "a8a", "w8c")], [NOQ, M("SRQ", "a8a", "w8c"), M("SRQ", "a8s", "w8c")],
                         IO_2, max_ins=2),
   })
